@@ -8,6 +8,8 @@ pub mod settings;
 pub mod logical;
 pub mod entries;
 pub mod ranges;
+pub mod layout;
+pub mod history;
 
 pub use content::ContentSpec;
 pub use json::J;
